@@ -231,6 +231,8 @@ static int new_packet(int sk_fd, int can_socket) {
         }
 
         if (can_variant == AVTP_CAN_FD) {
+            // Flags are per message: do not carry them over from the previous one
+            frame.fd.flags = 0;
             if (Avtp_Can_GetBrs((Avtp_Can_t*)acf_pdu)) {
                 frame.fd.flags |= CANFD_BRS;
             }
